@@ -697,6 +697,7 @@ func TestC02(t *testing.T) {
 
 	if r.WantLayer("cells", true) {
 		cells, _ := vocab.SingleCells(false)
+		cells = append(cells, vocab.AnonymousCells(false)...)
 		done := 0
 		for _, w := range []string{"pkg", "method"} {
 			for _, c := range cells {
